@@ -13,12 +13,23 @@ package main
 // the SET of outcomes is the observation.  Each child gets a private working directory under os.TempDir()
 // (outside /repo and /verif) holding a symlink to the catchment test fixture; everything is removed afterwards.
 //
+// Beyond single keys the generator produces documents whose parts REFER to each other or to the file system:
+//   - CSV data sources written into the child's working directory whose three tables disagree (a gully / an action row in a
+//     subcatchment the Subcatchments table does not list, duplicate rows, missing and non-numeric cells, empty tables): their
+//     SHAPE is exported (read back with encoding/csv, not with crem's loader) and the Coq model decides acceptance from it;
+//   - paths that collide: CpuProfilePath = / above / inside OutputPath, = the data source's meta-file or one of its tables,
+//     an existing directory; OutputPath "" (the saver's default), = the data source's directory;
+//   - scenario names made of the texts the saver derives ids, labels and file names from ("Solution (", "(n/m)", "As-Is",
+//     separators, %, line breaks, over-long), with several runs: the summary files must be one per run;
+//   - floats at the edge of what the formatters and math.RoundFloat take (1e303, 1e306).
+//
 // Implementation-side oracle (the Search): a document must end as  load error | interpreter error | completed with
 // exactly one summary file per run.  Everything else (a panic anywhere, Run() returning an error, no end, a missing
 // result) is printed as {"kind":"oracle", "class": <the one hazard the generator put into the document, or "none">, ...}.
 
 import (
 	"bytes"
+	"encoding/csv"
 	"encoding/json"
 	"fmt"
 	"os"
@@ -324,6 +335,8 @@ const (
 )
 
 const c19DeepMeta = "TableName, FilePath\nSubcatchments, data/ValidSubcatchments.csv\nGullies, data/ValidGullies.csv\nActions, data/InvalidActions.csv\n"
+
+const c19SubDir = "sub" // an empty directory in every child's working directory
 
 var c19DataClass = map[string]int{c19DataOk: 2, c19DataMalformed: 0, c19DataDeep: 1, c19DataPlain: 0, c19DataDir: 0, c19DataMissing: 0, "": 0}
 
@@ -664,6 +677,90 @@ func c19Perturbations() []c19Pert {
 		lim("mid-range", "", func(g *c19Gen) float64 { return g.mid[k] })
 		lim("above everything", "", func(g *c19Gen) float64 { return g.far[k] })
 	}
+	// ---- floats at the edge of what the log / file formatters and math.RoundFloat take
+	mp("InitialObjectiveValue 1e303", "DumbModel", c19PF("InitialObjectiveValue", 1e303))
+	mp("InitialObjectiveValue -1e303", "DumbModel", c19PF("InitialObjectiveValue", -1e303))
+	mp("InitialObjectiveOneValue 1e303", "MultiObjectiveDumbModel", c19PF("InitialObjectiveOneValue", 1e303))
+	ap("StartingTemperature 1e303", c19PF("StartingTemperature", 1e303))
+	ap("StartingTemperature 1e308", c19PF("StartingTemperature", 1e308))
+	add("InitialObjectiveValue 1e306", "dumb-initial-objective-beyond-roundfloat-range", func(g *c19Gen, d *c19Doc) bool {
+		if s, _ := d.ModelType.str(); s != "DumbModel" {
+			return false
+		}
+		d.ModelParams = c19SetParam(d.ModelParams, c19PF("InitialObjectiveValue", []float64{1e306, -1e306, 1.7e308}[g.p.intn(3)]))
+		return true
+	})
+	// ---- data sources whose tables disagree with each other / hold cells the model cannot read
+	for _, v := range c19Variants {
+		v := v
+		add("data source "+v.Name, "", func(g *c19Gen, d *c19Doc) bool {
+			if !c19IsCatchment(d) {
+				return false
+			}
+			d.ModelParams = c19SetParam(d.ModelParams, c19PS("DataSourcePath", v.meta()))
+			if strings.HasPrefix(v.Name, "gully") {
+				// the gully actions are reached by the random walk, not by the as-is initialisation
+				d.AnnealerParams = c19SetParam(d.AnnealerParams, c19PI("MaximumIterations", 50))
+				d.Runs = 2
+			}
+			return true
+		})
+	}
+	// ---- paths that collide
+	paths := func(name, hazard string, out, prof *string, data string) {
+		add(name, hazard, func(g *c19Gen, d *c19Doc) bool {
+			if data != "" {
+				if !c19IsCatchment(d) {
+					return false
+				}
+				d.ModelParams = c19SetParam(d.ModelParams, c19PS("DataSourcePath", data))
+			}
+			if out != nil {
+				d.OutputPath = c19Str(*out)
+			}
+			if prof != nil {
+				d.CpuProfile = c19Str(*prof)
+			}
+			return true
+		})
+	}
+	str := func(s string) *string { return &s }
+	local := c19VariantNamed("local")
+	paths("CpuProfilePath equals OutputPath", "", str("out"), str("out"), "")
+	paths("CpuProfilePath equals OutputPath, spelled differently", "", str("out"), str("./"+c19SubDir+"/../out"), "")
+	paths("OutputPath below CpuProfilePath", "", str("prof.pprof/out"), str("prof.pprof"), "")
+	paths("CpuProfilePath inside OutputPath", "", str(c19SubDir), str(c19SubDir+"/prof.pprof"), "")
+	paths("CpuProfilePath next to OutputPath", "", str(c19SubDir+"/out"), str(c19SubDir+"/outer"), "")
+	paths("CpuProfilePath is a directory", "profile-path-is-a-directory", nil, str(c19SubDir), "")
+	paths("OutputPath empty", "", str(""), nil, "")
+	paths("CpuProfilePath is the default OutputPath", "", str(""), str("solutions"), "")
+	paths("CpuProfilePath is the data source", "", nil, str(local.meta()), local.meta())
+	paths("CpuProfilePath is a table of the data source", "", nil, str(local.dir()+"/G.csv"), local.meta())
+	paths("CpuProfilePath is a table of the data source, spelled differently", "", nil, str("./"+c19SubDir+"/../"+local.dir()+"/A.csv"), local.meta())
+	paths("CpuProfilePath next to the data source", "", nil, str(local.dir()+"/prof.pprof"), local.meta())
+	paths("CpuProfilePath is a table of another data source", "", nil, str(local.dir()+"/S.csv"), c19DataOk)
+	paths("OutputPath is the data source's directory", "", str(local.dir()), nil, local.meta())
+	paths("OutputPath is the data source", "", str(local.meta()), nil, local.meta())
+	// ---- scenario names made of what the saver derives ids, labels and file names from; three runs, one result each
+	names := func(name, hazard, text string) {
+		add(name, hazard, func(g *c19Gen, d *c19Doc) bool {
+			d.Name = c19Str(text)
+			d.RunNumber = c19Int(3)
+			return true
+		})
+	}
+	names("Name with a solution marker", "", "x Solution (1/2) y")
+	names("Name Solution(", "", "Solution(")
+	names("Name like an as-is id", "", "As-Is (1/1) Solution (As-Is)")
+	names("Name like a run id", "", "P (2/3)")
+	names("Name with percent", "", "100%s %d")
+	names("Name with backslash", "", "a\\b")
+	names("Name dotdot", "", "..")
+	names("Name with line break", "", "line\nbreak")
+	names("Name with quote and comma", "", "q\"uote,comma")
+	names("Name blank", "", " ")
+	names("Name ends with slash", "", "x/")
+	names("Name too long for a file name", "result-file-cannot-be-created", strings.Repeat("n", 260))
 	// the document as a whole
 	add("unknown key Scenario.Bogus", "", func(g *c19Gen, d *c19Doc) bool { d.Unknown = c19AddOnce(d.Unknown, "Scenario.Bogus"); return true })
 	add("unknown key Scenario.Reporting.Bogus", "", func(g *c19Gen, d *c19Doc) bool {
@@ -754,7 +851,7 @@ func c19Tags(code int, text string) []string {
 			if strings.Contains(ln, "satisfied by every combination of management actions") {
 				set["ELimitNotBinding"] = true
 			}
-			if strings.Contains(ln, "Scenario.OutputPath [") {
+			if strings.Contains(ln, "Scenario.OutputPath [") && !strings.Contains(ln, "is in the way of Scenario.OutputPath") {
 				set["EOutputPath"] = true
 			}
 			if strings.Contains(ln, "needs Excel") {
@@ -762,6 +859,12 @@ func c19Tags(code int, text string) []string {
 			}
 			if strings.Contains(ln, "the directory of Scenario.CpuProfilePath") {
 				set["EProfilePath"] = true
+			}
+			if strings.Contains(ln, "is in the way of Scenario.OutputPath") {
+				set["EProfileBlocksOutput"] = true
+			}
+			if strings.Contains(ln, "is a file the configured model reads its data from") {
+				set["EProfileOverwritesInput"] = true
 			}
 			for _, m := range c19reLevel.FindAllStringSubmatch(ln, -1) {
 				set["ELogDestination:"+m[1]] = true
@@ -784,6 +887,9 @@ func c19Tags(code int, text string) []string {
 
 func c19OutDir(d *c19Doc, cwd string) string {
 	if s, ok := d.OutputPath.str(); ok {
+		if s == "" {
+			s = "solutions" // Saver.WithOutputPath keeps its default
+		}
 		if filepath.IsAbs(s) {
 			return s
 		}
@@ -794,16 +900,11 @@ func c19OutDir(d *c19Doc, cwd string) string {
 
 func c19RunOnce(root string, d *c19Doc, k int, text string) c19Exec {
 	cwd := filepath.Join(root, fmt.Sprintf("d%d-%d", d.Id, k))
-	if err := os.MkdirAll(cwd, 0o755); err != nil {
-		panic(err)
+	if d.writesThroughSymlink() {
+		panic("generated document writes through the data symlink: " + text)
 	}
 	defer os.RemoveAll(cwd)
-	if err := os.Symlink(filepath.Join(catchRepoRoot(), "internal/pkg/model/models/catchment/testdata"), filepath.Join(cwd, "data")); err != nil {
-		panic(err)
-	}
-	os.WriteFile(filepath.Join(cwd, c19DataPlain), []byte("not a data set\n"), 0o644)
-	os.WriteFile(filepath.Join(cwd, "notadir"), []byte("a file\n"), 0o644)
-	os.WriteFile(filepath.Join(cwd, c19DataDeep), []byte(c19DeepMeta), 0o644)
+	c19WriteLayout(cwd, d.variants())
 	tomlPath := filepath.Join(cwd, "scenario.toml")
 	os.WriteFile(tomlPath, []byte(text), 0o644)
 	outDir := c19OutDir(d, cwd)
@@ -1005,6 +1106,29 @@ func runC19(args []string) {
 		panic(err)
 	}
 	defer os.RemoveAll(root)
+	// a directory laid out like every child's working directory, with every generated data source: the shapes of their tables
+	// (own CSV reader) and -- where the real loader and the model's initialisation take them -- the constants the model derives
+	probe := filepath.Join(root, "probe")
+	c19WriteLayout(probe, c19Variants)
+	shapes := map[string]J{}
+	dsIndex := map[string]int{}
+	nextDs := 1
+	for _, v := range c19Variants {
+		shapes[v.Name] = v.shape(probe)
+		dsIndex[v.Name] = 0
+		var inst *catchInst
+		var exported J
+		if panicked, _ := protect(func() {
+			if c, ok := catchTryOpen(filepath.Join(probe, v.meta())); ok {
+				inst = c
+				exported = c.export(v.dir())
+			}
+		}); !panicked && inst != nil && exported != nil {
+			emit(exported)
+			dsIndex[v.Name] = nextDs
+			nextDs++
+		}
+	}
 	results := c19RunAll(root, docs)
 
 	stats := map[string]int{"documents": len(docs)}
@@ -1032,39 +1156,70 @@ func runC19(args []string) {
 		for _, n := range d.Note {
 			stats["pert "+n]++
 		}
-		// oracle bits of the environment
+		// oracle bits of the environment: asked of the file system in a directory laid out like every child's (never of crem)
 		readable := []string{}
 		data := []J{}
+		dataFiles := []J{}
 		for _, p := range d.ModelParams {
 			if p.K == "DataSourcePath" {
 				if s, ok := p.V.(string); ok {
-					cwd := filepath.Join(root, "probe")
-					os.MkdirAll(cwd, 0o755)
-					os.Symlink(filepath.Join(catchRepoRoot(), "internal/pkg/model/models/catchment/testdata"), filepath.Join(cwd, "data"))
-					os.WriteFile(filepath.Join(cwd, c19DataPlain), []byte("x"), 0o644)
-					os.WriteFile(filepath.Join(cwd, c19DataDeep), []byte(c19DeepMeta), 0o644)
-					if f, err := os.OpenFile(filepath.Join(cwd, s), os.O_RDONLY, 0o666); err == nil {
+					if f, err := os.OpenFile(filepath.Join(probe, s), os.O_RDONLY, 0o666); err == nil {
 						f.Close()
 						readable = append(readable, s)
 					}
-					data = append(data, J{"k": s, "v": c19DataClass[s]})
+					if vs := c19VariantsIn(s); len(vs) == 1 && s == vs[0].meta() {
+						data = append(data, J{"k": s, "shape": shapes[vs[0].Name], "di": dsIndex[vs[0].Name]})
+						dataFiles = append(dataFiles, J{"k": s, "v": vs[0].files()})
+					} else {
+						data = append(data, J{"k": s, "class": c19DataClass[s]})
+						if s == c19DataOk {
+							dataFiles = append(dataFiles, J{"k": s, "v": []string{"data/ValidModel.csv", "data/ValidSubcatchments.csv", "data/ValidGullies.csv", "data/ValidActions.csv"}})
+						}
+					}
 				}
 			}
 		}
 		outIsFile := false // os.Stat: an existing non-directory, or an error other than "does not exist"
-		if s, ok := d.OutputPath.str(); ok && strings.HasPrefix(s, "notadir") {
-			outIsFile = true
-		}
 		outCreatable := true
-		if s, ok := d.OutputPath.str(); ok && strings.HasPrefix(s, "/proc/") {
-			outCreatable = false
+		if s, ok := d.OutputPath.str(); ok {
+			full := s
+			if !filepath.IsAbs(s) {
+				full = filepath.Join(probe, s)
+			}
+			if s == "" {
+				full = "" // os.Stat("") : does not exist
+			}
+			if fi, err := os.Stat(full); err == nil {
+				outIsFile = !fi.IsDir()
+			} else if !os.IsNotExist(err) {
+				outIsFile = true
+			}
+			if strings.HasPrefix(s, "/proc/") {
+				outCreatable = false
+			}
 		}
-		profDirOk := true
-		if s, ok := d.CpuProfile.str(); ok && strings.HasPrefix(s, "missing/") {
-			profDirOk = false
+		profDirOk, profCreatable := true, true
+		if s, ok := d.CpuProfile.str(); ok && s != "" {
+			fi, err := os.Stat(filepath.Dir(filepath.Join(probe, s)))
+			profDirOk = err == nil && fi.IsDir()
+			profCreatable = profDirOk
+			if fi, err := os.Stat(filepath.Join(probe, s)); err == nil && fi.IsDir() {
+				profCreatable = false
+			}
+		}
+		fileCreatable := true // can the file system hold a summary file for this scenario name?
+		if s, ok := d.Name.str(); ok {
+			stem := strings.ReplaceAll(strings.ReplaceAll(s, " ", ""), "/", "_of_") + "(3_of_3)-Summary.json"
+			if f, err := os.Create(filepath.Join(probe, c19SubDir, stem)); err == nil {
+				f.Close()
+				os.Remove(filepath.Join(probe, c19SubDir, stem))
+			} else {
+				fileCreatable = false
+			}
 		}
 		emit(J{"kind": "case", "id": d.Id, "note": d.Note, "hazard": d.Hazard, "toml": r.text, "config": d.abstract(),
-			"readable": readable, "data": data, "out_is_file": outIsFile, "out_creatable": outCreatable, "profile_dir_ok": profDirOk,
+			"readable": readable, "data": data, "data_files": dataFiles, "out_is_file": outIsFile, "out_creatable": outCreatable,
+			"profile_dir_ok": profDirOk, "profile_creatable": profCreatable, "file_creatable": fileCreatable,
 			"outcomes": codeList, "errs": tags, "summaries": files})
 		// ---- the property itself, evaluated on what the real code did
 		for _, x := range r.execs {
@@ -1094,4 +1249,254 @@ func runC19(args []string) {
 		}
 	}
 	emit(J{"kind": "stat", "stats": stats})
+}
+
+// ======================================================================================
+// generated data sources (variants of the shipped ValidModel data set, written into the child's working directory)
+// ======================================================================================
+
+type c19Variant struct {
+	Name string // directory "ds_<Name>" holding m.csv (meta-file), S.csv, G.csv, A.csv
+	Mut  func(t *c19Tables)
+}
+
+type c19Tables struct{ Sub, Gul, Act []string } // lines, header first
+
+func (v *c19Variant) dir() string  { return "ds_" + v.Name }
+func (v *c19Variant) meta() string { return v.dir() + "/m.csv" }
+func (v *c19Variant) files() []string {
+	return []string{v.dir() + "/m.csv", v.dir() + "/S.csv", v.dir() + "/G.csv", v.dir() + "/A.csv"}
+}
+
+func c19ReadLines(n string) []string {
+	b, err := os.ReadFile(catchTestdata(n))
+	if err != nil {
+		panic(err)
+	}
+	lines := []string{}
+	for _, l := range strings.Split(strings.ReplaceAll(string(b), "\r\n", "\n"), "\n") {
+		if strings.TrimSpace(l) != "" {
+			lines = append(lines, l)
+		}
+	}
+	return lines
+}
+
+// the first row of the Actions table with this type, moved to subcatchment `pu`
+func c19ActionRow(t *c19Tables, ty string, pu string) string {
+	for _, l := range t.Act[1:] {
+		f := strings.Split(l, ",")
+		if f[1] == ty {
+			f[0] = pu
+			return strings.Join(f, ",")
+		}
+	}
+	panic("no action row of type " + ty)
+}
+
+func c19SetCell(line string, col int, text string) string {
+	f := strings.Split(line, ",")
+	f[col] = text
+	return strings.Join(f, ",")
+}
+
+var c19Variants = []*c19Variant{
+	{"local", func(t *c19Tables) {}}, // an unchanged private copy (for the path collisions)
+	// ---- references between the tables
+	{"gully99", func(t *c19Tables) { t.Gul = append(t.Gul, "3,99,3859.73,178.417") }},            // a gully in a subcatchment that is not listed
+	{"gullyonly99", func(t *c19Tables) { t.Gul = []string{t.Gul[0], "1,99,3859.73,178.417"} }},   // ... and no other gully
+	{"hill99", func(t *c19Tables) { t.Act = append(t.Act, c19ActionRow(t, "Hillslope", "99")) }}, // action rows for a planning unit that does not exist
+	{"gullyact99", func(t *c19Tables) { t.Act = append(t.Act, c19ActionRow(t, "Gully", "99")) }}, //
+	{"rip99", func(t *c19Tables) { t.Act = append(t.Act, c19ActionRow(t, "Riparian", "99")) }},   //
+	{"wet99", func(t *c19Tables) { t.Act = append(t.Act, c19ActionRow(t, "Wetland", "99")) }},    // (ignored by the model)
+	{"bogustype", func(t *c19Tables) {
+		t.Act = append(t.Act, c19ActionRow(t, "Gully", "17"))
+		n := len(t.Act) - 1
+		t.Act[n] = c19SetCell(t.Act[n], 1, "Bogus")
+	}},
+	{"gully19", func(t *c19Tables) { t.Gul = append(t.Gul, "3,19,3859.73,178.417") }}, // a gully where the Actions table has no Gully row: a free action
+	{"gullyfrac", func(t *c19Tables) { // <largest id>.5 is planning unit <largest id> (rounding up would leave the table)
+		top := 0.0
+		for _, l := range t.Sub[1:] {
+			if f, err := strconv.ParseFloat(strings.Split(l, ",")[0], 64); err == nil && f > top {
+				top = f
+			}
+		}
+		t.Gul = append(t.Gul, fmt.Sprintf("3,%v,100.5,10.5", top+0.5))
+	}},
+	// ---- duplicates
+	{"dupsub", func(t *c19Tables) { t.Sub = append(t.Sub, t.Sub[1]) }},
+	{"dupact", func(t *c19Tables) { t.Act = append(t.Act, t.Act[2]) }},
+	{"dupgully", func(t *c19Tables) { t.Gul = append(t.Gul, t.Gul[1]) }},
+	// ---- cells
+	{"misssub", func(t *c19Tables) { t.Sub[1] = c19SetCell(t.Sub[1], 2, "") }},
+	{"missgully", func(t *c19Tables) { t.Gul[1] = c19SetCell(t.Gul[1], 2, "") }},
+	{"missact", func(t *c19Tables) { t.Act[1] = c19SetCell(t.Act[1], 3, "") }},
+	{"textsub", func(t *c19Tables) { t.Sub[2] = c19SetCell(t.Sub[2], 8, "lots") }},
+	{"textgully", func(t *c19Tables) { t.Gul[2] = c19SetCell(t.Gul[2], 1, "north") }},
+	{"textact", func(t *c19Tables) { t.Act[len(t.Act)-1] = c19SetCell(t.Act[len(t.Act)-1], 14, "x") }},
+	{"textactid", func(t *c19Tables) { t.Act[3] = c19SetCell(t.Act[3], 0, "seventeen") }},
+	// ---- empty tables
+	{"nogullies", func(t *c19Tables) { t.Gul = t.Gul[:1] }},
+	{"noactions", func(t *c19Tables) { t.Act = t.Act[:1] }},
+	{"nosubs", func(t *c19Tables) { t.Sub = t.Sub[:1] }},
+	{"nothing", func(t *c19Tables) { t.Sub, t.Gul, t.Act = t.Sub[:1], t.Gul[:1], t.Act[:1] }},
+}
+
+func c19VariantNamed(name string) *c19Variant {
+	for _, v := range c19Variants {
+		if v.Name == name {
+			return v
+		}
+	}
+	panic("no variant " + name)
+}
+
+// the variant whose directory the path lies in ("ds_x/...", "./ds_x/...", "sub/../ds_x/...")
+func c19VariantsIn(path string) []*c19Variant {
+	res := []*c19Variant{}
+	for _, v := range c19Variants {
+		for _, seg := range strings.Split(path, "/") {
+			if seg == v.dir() {
+				res = append(res, v)
+				break
+			}
+		}
+	}
+	return res
+}
+
+var c19BaseTables *c19Tables
+
+func (v *c19Variant) write(cwd string) {
+	if c19BaseTables == nil {
+		c19BaseTables = &c19Tables{c19ReadLines("ValidSubcatchments.csv"), c19ReadLines("ValidGullies.csv"), c19ReadLines("ValidActions.csv")}
+	}
+	t := &c19Tables{append([]string{}, c19BaseTables.Sub...), append([]string{}, c19BaseTables.Gul...), append([]string{}, c19BaseTables.Act...)}
+	v.Mut(t)
+	dir := filepath.Join(cwd, v.dir())
+	if err := os.MkdirAll(dir, 0o755); err != nil {
+		panic(err)
+	}
+	w := func(n string, lines []string) {
+		if err := os.WriteFile(filepath.Join(dir, n), []byte(strings.Join(lines, "\n")+"\n"), 0o644); err != nil {
+			panic(err)
+		}
+	}
+	w("S.csv", t.Sub)
+	w("G.csv", t.Gul)
+	w("A.csv", t.Act)
+	w("m.csv", []string{"TableName, FilePath", "Subcatchments, S.csv", "Gullies, G.csv", "Actions, A.csv"})
+}
+
+// the shape of the three tables as an independent CSV reader sees them
+func c19CellJ(text string) J {
+	if f, err := strconv.ParseFloat(strings.TrimSpace(text), 64); err == nil {
+		return J{"num": true, "id": strconv.FormatInt(int64(f), 10)}
+	}
+	return J{"num": false}
+}
+
+func c19IsNum(text string) bool {
+	_, err := strconv.ParseFloat(strings.TrimSpace(text), 64)
+	return err == nil
+}
+
+func (v *c19Variant) shape(cwd string) J {
+	read := func(n string) [][]string {
+		f, err := os.Open(filepath.Join(cwd, v.dir(), n))
+		if err != nil {
+			panic(err)
+		}
+		defer f.Close()
+		r := csv.NewReader(f)
+		r.TrimLeadingSpace = true
+		recs, err := r.ReadAll()
+		if err != nil {
+			panic(err)
+		}
+		return recs[1:]
+	}
+	sub, gul, act := read("S.csv"), read("G.csv"), read("A.csv")
+	subs, subOk := []J{}, true
+	for _, r := range sub {
+		subs = append(subs, c19CellJ(r[0]))
+		for _, c := range r[1:] {
+			subOk = subOk && c19IsNum(c)
+		}
+	}
+	guls, gulOk := []J{}, true
+	for _, r := range gul {
+		guls = append(guls, c19CellJ(r[1]))
+		gulOk = gulOk && c19IsNum(r[0]) && c19IsNum(r[2]) && c19IsNum(r[3])
+	}
+	acts, actOk := []J{}, true
+	for _, r := range act {
+		acts = append(acts, J{"pu": c19CellJ(r[0]), "type": r[1]})
+		for _, c := range r[2:] {
+			actOk = actOk && c19IsNum(c)
+		}
+	}
+	return J{"subs": subs, "sub_ok": subOk, "gullies": guls, "gully_ok": gulOk, "actions": acts, "action_ok": actOk}
+}
+
+// everything a child's working directory holds before the child starts
+func c19WriteLayout(cwd string, variants []*c19Variant) {
+	if err := os.MkdirAll(cwd, 0o755); err != nil {
+		panic(err)
+	}
+	if err := os.Symlink(filepath.Join(catchRepoRoot(), "internal/pkg/model/models/catchment/testdata"), filepath.Join(cwd, "data")); err != nil {
+		panic(err)
+	}
+	os.WriteFile(filepath.Join(cwd, c19DataPlain), []byte("not a data set\n"), 0o644)
+	os.WriteFile(filepath.Join(cwd, "notadir"), []byte("a file\n"), 0o644)
+	os.WriteFile(filepath.Join(cwd, c19DataDeep), []byte(c19DeepMeta), 0o644)
+	os.MkdirAll(filepath.Join(cwd, c19SubDir), 0o755)
+	for _, v := range variants {
+		v.write(cwd)
+	}
+}
+
+func (d *c19Doc) paths() []string {
+	res := []string{}
+	for _, f := range []c19Field{d.OutputPath, d.CpuProfile} {
+		if s, ok := f.str(); ok {
+			res = append(res, s)
+		}
+	}
+	for _, p := range d.ModelParams {
+		if s, ok := p.V.(string); ok && p.K == "DataSourcePath" {
+			res = append(res, s)
+		}
+	}
+	return res
+}
+
+func (d *c19Doc) variants() []*c19Variant {
+	seen := map[string]bool{}
+	res := []*c19Variant{}
+	for _, p := range d.paths() {
+		for _, v := range c19VariantsIn(p) {
+			if !seen[v.Name] {
+				seen[v.Name] = true
+				res = append(res, v)
+			}
+		}
+	}
+	return res
+}
+
+// A document must never name, as something that is WRITTEN (CpuProfilePath, OutputPath), a path through the "data" symlink:
+// it leads into the repository.
+func (d *c19Doc) writesThroughSymlink() bool {
+	for _, f := range []c19Field{d.OutputPath, d.CpuProfile} {
+		if s, ok := f.str(); ok {
+			for _, seg := range strings.Split(s, "/") {
+				if seg == c19DataDir {
+					return true
+				}
+			}
+		}
+	}
+	return false
 }
